@@ -97,6 +97,7 @@ type ObservedOut struct {
 }
 
 var dumped bool
+var abortReasons = map[string]int{}
 var forkSites = map[string]int{}
 var noMergeArms = map[string]int{}
 
@@ -278,7 +279,7 @@ func (e *Engine) feasible(s *State, c *Term) Result {
 	if c.IsFalse() {
 		return Unsat
 	}
-	if f, ok := s.facts[c.ID]; ok {
+	if f, ok := s.factOf(c); ok {
 		if f.IsTrue() {
 			return Sat
 		}
@@ -304,7 +305,7 @@ func (e *Engine) decide(s *State, c *Term) bool {
 	if c.Const {
 		return c.IsTrue()
 	}
-	if f, ok := s.facts[c.ID]; ok {
+	if f, ok := s.factOf(c); ok {
 		return f.IsTrue()
 	}
 	rt := e.feasible(s, c)
@@ -313,12 +314,12 @@ func (e *Engine) decide(s *State, c *Term) bool {
 		if e.feasible(s, Not(c)) == Unsat {
 			panic(abortPath{"infeasible"})
 		}
-		s.facts[c.ID] = TFalse
+		s.setFact(c, TFalse)
 		return false
 	}
 	rf = e.feasible(s, Not(c))
 	if rf == Unsat {
-		s.facts[c.ID] = TTrue
+		s.setFact(c, TTrue)
 		return true
 	}
 	// fork
@@ -539,7 +540,7 @@ func (e *Engine) check(s *State, cond *Term, kind, msg string) {
 	if cond.IsTrue() {
 		return
 	}
-	if f, ok := s.facts[cond.ID]; ok && f.IsTrue() {
+	if f, ok := s.factOf(cond); ok && f.IsTrue() {
 		return
 	}
 	if cheapTrue(cond) {
@@ -555,7 +556,7 @@ func (e *Engine) check(s *State, cond *Term, kind, msg string) {
 	r, m := e.sat(s, neg)
 	switch r {
 	case Unsat:
-		s.facts[cond.ID] = TTrue
+		s.setFact(cond, TTrue)
 		return
 	case Unknown:
 		e.addInconclusive(s, fmt.Sprintf("solver unknown on %s (%s) at %s", kind, msg, e.pos(e.curInstr(s))))
@@ -768,6 +769,7 @@ func (e *Engine) step(s *State) (res stepResult) {
 			case forkSignal:
 				res = stepResult{kind: stepFork, states: x.states}
 			case abortPath:
+				abortReasons[x.reason+"@"+e.pos(e.curInstr(s))]++
 				if x.reason == "infeasible" || x.reason == "assume" {
 					e.pathsInfeasible++
 				} else {
@@ -812,7 +814,7 @@ func (e *Engine) step(s *State) (res stepResult) {
 			e.takeBranch(s, c.IsTrue())
 			return stepResult{kind: stepCont}
 		}
-		if fct, ok := s.facts[c.ID]; ok {
+		if fct, ok := s.factOf(c); ok {
 			e.takeBranch(s, fct.IsTrue())
 			return stepResult{kind: stepCont}
 		}
@@ -825,13 +827,13 @@ func (e *Engine) step(s *State) (res stepResult) {
 				e.pathsInfeasible++
 				return stepResult{kind: stepEnd} // state itself is infeasible (lazy arm)
 			}
-			s.facts[c.ID] = TFalse
+			s.setFact(c, TFalse)
 			e.takeBranch(s, false)
 			return stepResult{kind: stepCont}
 		}
 		rf := e.feasible(s, Not(c))
 		if rf == Unsat {
-			s.facts[c.ID] = TTrue
+			s.setFact(c, TTrue)
 			e.takeBranch(s, true)
 			return stepResult{kind: stepCont}
 		}
